@@ -2927,11 +2927,11 @@ def uncoveredNs (site : String) : Option Ns :=
   else if site = "SubFunction.identifier_list" then some .function
   else if site = "SubGroup.identifier_list" then some .group
   else if site = "RefGroup.identifier_list" then some .group
-  else if site = "VarCharacteristic.name" then some .object
   else none
 
 /-- the namespace a reference field points into. `VarCharacteristic.criterion_name_list` holds names of VAR_CRITERIONs
-    (not visible in the node abstraction) although `rename_objects` applies the object table to it. -/
+    (not visible in the node abstraction); since fix 75105bb `rename_objects` no longer applies the object table to it
+    (it renames `VarCharacteristic.name`, the variant-coded object, instead). -/
 def refNs (tag site : String) : Option Ns :=
   if tag = "VARIANT_CODING" ∧ site = "VarCharacteristic.criterion_name_list" then none
   else match coveredNs tag site with
